@@ -40,6 +40,9 @@ def cases_cells(tier, seed):
     for home in SHEETS:
         yield dict(kind='empty', home=home, ref='Z99')
         yield dict(kind='empty', home=home, ref='$Z$99')
+        # an empty cell on a sheet that holds nothing at all (the model only knows sheets through their stored cells)
+        yield dict(kind='empty', home=home, ref='Inputs!B2')
+        yield dict(kind='empty', home=home, ref="'User Input'!$C$3")
 
 
 def rects():
